@@ -295,7 +295,16 @@ func init() {
 		n := int(ex.termInt64(ex.concretize(a[2].(*Term), "verifUF outLen")))
 		return ex.bytesSlice(ex.ufBytes(name, in, n))
 	}
-	harnessAPI["verifThorough"] = func(ex *Exec, fn *ssa.Function, a []Value) Value {
+	// verifRandQueue(b): the next crypto/rand reads are served from b (then symbolic again)
+	harnessAPI["verifRandQueue"] = func(ex *Exec, fn *ssa.Function, a []Value) Value {
+		ex.randQueue = append(ex.randQueue, ex.sliceBytes(a[0].(SliceV))...)
+		return nil
+	}
+	harnessAPI["verifMapOrder"] =func(ex *Exec, fn *ssa.Function, a []Value) Value {
+		ex.mapFixed = !ex.boolConst(a[0])
+		return nil
+	}
+	harnessAPI["verifThorough"] =func(ex *Exec, fn *ssa.Function, a []Value) Value {
 		return ex.tt.Bool(ex.eng.tier == "thorough")
 	}
 	harnessAPI["verifIsSymbolic"] = func(ex *Exec, fn *ssa.Function, a []Value) Value {
@@ -937,7 +946,14 @@ func registerIntrinsics(e *Engine) {
 	I["crypto/rand.Read"] = func(ex *Exec, fn *ssa.Function, a []Value) Value {
 		s := a[0].(SliceV)
 		n := int(ex.termInt64(ex.concretize(s.len, "rand.Read len")))
-		bs := ex.newSymBytes("crand", n, true)
+		var bs []*Term
+		if len(ex.randQueue) >= n && n > 0 {
+			// values the harness fixed for this read (verifRandQueue)
+			bs = ex.randQueue[:n]
+			ex.randQueue = ex.randQueue[n:]
+		} else {
+			bs = ex.newSymBytes("crand", n, true)
+		}
 		for i, b := range bs {
 			ex.store(ex.sliceElemPtr(s, ex.intc(int64(i))), b)
 		}
